@@ -92,6 +92,12 @@ func runUnit(r *mc.Report, base *mc.Ctx, u mc.Unit) {
 		r.Errorf("unit %s: nondeterministic execution of %v", u.Name, probe)
 		return
 	}
+	if opts.ReadFaults > 0 {
+		// the statement gate is process-wide state: executions of a unit that uses it run one after the other
+		b := *base
+		b.Par = 1
+		base = &b
+	}
 	mc.BFS(r, base, mc.BFSModel{MaxDepth: depth(base.Tier), Build: func(c *mc.Ctx, history []string) (string, []string) {
 		return senderkit.Run(c, cfg, opts, w, history)
 	}})
